@@ -1,13 +1,14 @@
 #!/bin/sh
-# setup_cmd: build everything from files on disk, offline.
-set -e
+# setup_cmd: build everything from files on disk, offline.  Each check rebuilds what it needs, so a
+# failure of one target here must not take the others down (-k / --keep-going).
 cd "$(dirname "$0")/.."
 export CARGO_NET_OFFLINE=true
 mkdir -p work evidence
 cp /repo/Cargo.lock harness/Cargo.lock
-(cd harness && cargo build --offline --bins 2>&1 | tail -3)
+(cd harness && cargo build --offline --bins --keep-going 2>&1 | tail -3)
 cd coq
 coq_makefile -f _CoqProject -o Makefile $(find theories -name '*.v' | sort) >/dev/null
-find theories -name '*.v' | sort | sed 's#^\./##' | tr '\n' '\n' > /dev/null
-timeout 3000 make -j16 2>&1 | tail -3
+find theories -name '*.v' | sort > .filelist.tmp; tr '\n' '\n' < .filelist.tmp > /dev/null; rm -f .filelist.tmp
+timeout 3000 make -k -j16 2>&1 | tail -3
 echo setup done
+exit 0
